@@ -1,12 +1,16 @@
 #!/bin/bash
-# tools/sweep.sh <tier> <seeds...> — run every claimed check at the given seeds; prints one line per run. Evidence goes to a scratch root.
+# tools/sweep.sh <tier> <seeds...> — run every claimed check (or $CHECKS) at the given seeds; one line per run.
+# Works from any checkout of /verif (e.g. a `vp run` snapshot): binaries and evidence go to scratch dirs, never to /verif.
 TIER=$1; shift
-cd /verif; . ./env.sh
-( cd harness && go build -tags verif -o /verif/bin/check ./cmd/check && go build -race -tags verif -o /verif/bin/check-race ./cmd/check ) && ( cd /repo && go build -tags verif -o /verif/bin/bazel-remote . ) || exit 9
-for seed in "$@"; do for c in $(cat CLAIMED); do
+ROOT="$(cd "$(dirname "${BASH_SOURCE[0]}")/.." && pwd)"
+cd "$ROOT"; . ./env.sh
+B=$(mktemp -d /tmp/sweepbin-XXXXXX)
+( cd harness && go build -tags verif -o $B/check ./cmd/check && go build -race -tags verif -o $B/check-race ./cmd/check ) && ( cd /repo && go build -tags verif -o $B/bazel-remote . ) || exit 9
+for seed in "$@"; do for c in ${CHECKS:-$(cat CLAIMED)}; do
   R=$(mktemp -d /tmp/sweep-XXXXXX); cp known_findings.json $R/
-  s=$(date +%s); out=$(VERIF_ROOT=$R VERIF_BIN=/verif/bin VERIF_SEED=$seed timeout 7200 ./bin/check $c $TIER 2>&1); rc=$?; e=$(date +%s)
+  s=$(date +%s); out=$(VERIF_ROOT=$R VERIF_BIN=$B VERIF_SEED=$seed timeout 7200 $B/check $c $TIER 2>&1); rc=$?; e=$(date +%s)
   echo "SWEEP $c seed=$seed tier=$TIER rc=$rc wall=$((e-s))s $(echo "$out" | grep -E '^(  key=|INCONCLUSIVE)' | sort | uniq -c | head -3 | tr '\n' ';')"
   [ $rc != 0 ] && { mkdir -p /tmp/sweepfail; echo "$out" | tail -50 > /tmp/sweepfail/$c-$seed.log; cp -r $R/replays /tmp/sweepfail/$c-$seed-replays 2>/dev/null; }
   rm -rf $R
 done; done
+rm -rf $B
